@@ -5,7 +5,8 @@ LEVEL = "proof"     # partial: see EXPLANATION (proved halves + per-document val
 EXPLANATION = (
     "partial, two halves. PROVED in Coq (coq/Properties_C08.v, closed under the global context): (1) a reference syntax written from RFC 8259 and from XML 1.0 "
     "(JxJsonSpec.v, JxXmlSpec.v): json_parse (json_print d) = d and xml_parse (xml_print x) = x for every well-formed DOM, white space between JSON tokens is "
-    "irrelevant, the parsers are total (never out of fuel); (2) theorems about a hand-written model of the adapter logic of rapidjson_archive.h / pugixml_archive.h "
+    "irrelevant, the parsers are total (never out of fuel); for JSON also the converse (JxJsonSound.v): the accepted texts are exactly the RFC 8259 renderings of the returned DOM "
+    "(free white space, the four spellings of a string character, the number lexeme carried by the DOM), so the reference parser accepts nothing else; (2) theorems about a hand-written model of the adapter logic of rapidjson_archive.h / pugixml_archive.h "
     "(JxModel.v): which DOM is built, how a DOM is read back, what Finalize does with a writer failure. VALIDATED PER DOCUMENT, not proved: RapidJSON 1.1.0 and pugixml "
     "1.13 themselves (their writers, parsers, number<->text conversions, encoding streams). On every run each document the implementation produces is decoded per the "
     "configured encoding, parsed by the extracted verified reference parser (the independent standard parser) and its DOM compared with the model's DOM of the value "
